@@ -6,7 +6,8 @@ from vf.core import Prop, Result
 
 WEIGHTS = {
     "def.remove_ports_from": 3, "def.remove_cables_from": 3, "def.remove_children_from": 3,
-    "port.remove_pins_from": 3, "cable.remove_wires_from": 3, "lib.remove_definitions_from": 2,
+    "port.remove_pins_from": 6, "cable.remove_wires_from": 6, "lib.remove_definitions_from": 2,
+    "cable.create_wires": 3, "port.create_pins": 3,
     "nl.remove_libraries_from": 2,
     "def.ports=": 2, "def.cables=": 2, "def.children=": 2, "port.pins=": 2, "cable.wires=": 2,
     "wire.pins=": 3, "wire.connect_pin": 8, "wire.disconnect_pin": 5, "wire.disconnect_pins_from": 4,
@@ -176,7 +177,7 @@ def build_universe(case):
 
 def case_strategy(weights, max_len, cfg=None, names=ops.NAMES, keys=ops.KEYS, own_bias=3,
                   policies=("DEFAULT", "DEFAULT", "EDIF"), odd_positions=False):
-    cfg = cfg or gen_ir.Cfg(max_defs=4, max_children=3, max_width=2, max_libs=2, unnamed=True,
+    cfg = cfg or gen_ir.Cfg(max_defs=4, max_children=3, max_width=4, max_libs=2, unnamed=True,
                             top="maybe", top_modes=["standalone", "definition", "child"],
                             noref_children=True, alphabet=["a", "A", "b", "c", "d", "e", ""])
     small = gen_ir.Cfg(max_defs=2, max_children=2, max_width=2, max_libs=1, unnamed=True,
